@@ -500,6 +500,12 @@ func datalogSource(pa biscuit.ParsedAuthorizer) (string, bool) {
 					st = append(st, a+".starts_with("+b+")")
 				} else if x == biscuit.BinaryRegex {
 					st = append(st, a+".matches("+b+")")
+				} else if x == biscuit.BinaryIntersection {
+					st = append(st, a+".intersection("+b+")")
+				} else if x == biscuit.BinaryContains {
+					st = append(st, a+".contains("+b+")")
+				} else if x == biscuit.BinaryAnd {
+					st = append(st, a+" && "+b)
 				} else if tk, found := binTok[x]; found {
 					st = append(st, a+" "+tk+" "+b)
 				} else {
